@@ -3,12 +3,23 @@ package main
 import (
 	"flag"
 	"fmt"
+	"io"
 	"os"
 
 	"verifharness/scen"
 )
 
 func main() {
+	if name := os.Getenv("VH_CHILD"); name != "" {
+		f, ok := scen.Children[name]
+		if !ok {
+			fmt.Fprintln(os.Stderr, "unknown child", name)
+			os.Exit(64)
+		}
+		arg, _ := io.ReadAll(os.Stdin)
+		f(arg)
+		os.Exit(0)
+	}
 	tier := flag.String("tier", "quick", "quick|thorough")
 	seed := flag.Int64("seed", 1, "PRNG seed")
 	out := flag.String("out", "", "output directory")
